@@ -361,6 +361,7 @@ def oracle_case(ctx, kind, v, s, family, cap_own=None, form="plain", wires=None)
     ctx.ok(base, nontrivial=n >= 2 and nz >= 2,
            sample={"class": rep["class"], "n": n, "s": s, "family": family, "width": d.num_qubits,
                    "nonzeros": nz, "max_marginal_err": err})
+    return cap
 
 
 def tie_case(ctx, kind, v, s, family, form="plain", wires=None):
@@ -420,11 +421,14 @@ def form_cases(ctx):
     {'split': None} (default split computed in the else-branch), a label, ndarray params, the static
     `initialize` with qubits=None and with an explicit permuted wire list on a wider host circuit."""
     r = ctx.rng
-    for n in (1, 2, 3):
+    for n in (1, 2, 3, 4, 5):
         fam = r.choice(["complex", "sparse", "zero_subtree", "real_signed"])
         v = make_vector(ctx, n, fam)
         for form in ("empty-opt", "split-none"):
+            # bdsp.py:56,59: opt_params None (the grid) / {} / {'split': None}, odd and even n
             yield "bdsp", n, v, None, fam, form, None
+        if n > 3:
+            continue
         for kind in ("bdsp", "dcsp"):
             ss = [None] if kind == "dcsp" else [None, r.randint(1, n)]
             for s in ss:
@@ -434,6 +438,202 @@ def form_cases(ctx):
                         w = declared_width(kind, n, s)
                         wires = r.sample(range(w + 1), w)
                     yield kind, n, v, s, fam, form, wires
+
+
+# ------------------------------------------------------------------------------------------------
+# boundary-value cases (every comparison of the anchored files on a size / level / threshold)
+# ------------------------------------------------------------------------------------------------
+
+def _clean(v):
+    v = np.asarray(v, dtype=complex)
+    v = v / np.linalg.norm(v)
+    return np.array([complex(float(a.real) + 0.0, float(a.imag) + 0.0) for a in v])
+
+
+def _dense(ctx, n):
+    r = ctx.nprng()
+    return np.array([r.uniform(0.3, 1.0) * np.exp(1j * r.uniform(-1.0, 1.0)) for _ in range(2 ** n)])
+
+
+def _nodes(n):
+    """(level, node index) pairs: every level, first and last node of the level."""
+    for lev in range(n):
+        for j in sorted({0, 2 ** lev - 1}):
+            yield lev, j
+
+
+def zero_node_vectors(ctx, n):
+    """`state_tree.mag != 0.0` (angle_tree_preparation.py:53), `angle_y != 0.0` (tree_walk.py:32,89),
+    `any(angles_y)` (tree_walk.py:65): at every level the first / last node gets norm exactly 0 on its left
+    child, its right child, or both."""
+    for lev, j in _nodes(n):
+        size = 2 ** (n - lev)
+        for which in ("left", "right", "both"):
+            if lev == 0 and which == "both":
+                continue
+            v = _dense(ctx, n)
+            lo = j * size + (size // 2 if which == "right" else 0)
+            hi = j * size + (size // 2 if which == "left" else size)
+            v[lo:hi] = 0.0
+            yield _clean(v), f"bnd-zero:l={lev}:j={'first' if j == 0 else 'last'}:{which}", f"zero-node:{which}"
+
+
+# relative magnitudes eps of one child: angle_y = 2*asin(eps/sqrt(1+eps^2)) ~ 2*eps, on both sides of
+# `!= 0.0` (exact 0 is zero_node_vectors; 1e-12 is the nearest value used) and of ucr's `abs(angle) > 1e-8`
+# (3e-9 below, 3e-8 above); 1e-3 is the next "ordinary" size.
+TINY = [("1e-12", 1e-12), ("3e-9", 1.5e-9), ("3e-8", 1.5e-8), ("2e-3", 1e-3)]
+
+
+def tiny_child_vectors(ctx, n):
+    """One child of a node carries a relative magnitude eps: the right child tiny puts angle_y just above 0
+    (bottom-up `!= 0.0`, top-down `any`, and ucr's single-angle 1e-8 test when the node is a top-down
+    sub-tree root, i.e. level == n - s); the left child tiny puts mag/parent one ulp below / at 1.0
+    (angle_tree_preparation.py:61 `mag > 1.0`) and makes `state_tree.mag` of the left child tiny but != 0."""
+    for lev, j in _nodes(n):
+        size = 2 ** (n - lev)
+        for side in ("left", "right"):
+            for tag, eps in TINY:
+                v = _dense(ctx, n)
+                a, m, b = j * size, j * size + size // 2, (j + 1) * size
+                v[a:m] /= np.linalg.norm(v[a:m])
+                v[m:b] /= np.linalg.norm(v[m:b])
+                if side == "left":
+                    v[a:m] *= eps
+                else:
+                    v[m:b] *= eps
+                yield _clean(v), f"bnd-tiny:l={lev}:j={'first' if j == 0 else 'last'}:{side}:{tag}", \
+                    f"tiny-child:{side}:{tag}"
+
+
+def from_angles(n, ys, zs):
+    """Vector whose angle tree is (ys, zs): ys[l][j], zs[l][j] for node j of level l.  amplitude_k =
+    prod_l cos|sin(y/2), phase_k = sum_l -+ z/2 (then angle_z = right.arg - left.arg = z exactly up to 1e-16)."""
+    v = np.zeros(2 ** n, dtype=complex)
+    for k in range(2 ** n):
+        mag, ph = 1.0, 0.0
+        for lev in range(n):
+            j = k >> (n - lev)
+            bit = (k >> (n - lev - 1)) & 1
+            y, z = ys[lev][j], zs[lev][j]
+            # exact zeros for y == 0 (right child vanishes); never use y == pi here
+            mag *= (math.sin(y / 2) if bit else math.cos(y / 2))
+            ph += (z / 2 if bit else -z / 2)
+        v[k] = mag * cmath.exp(1j * ph) if mag != 0.0 else 0.0
+    return v
+
+
+def angle_pattern_vectors(ctx, n):
+    """tree_walk.py:65-70 `any(angles_y)` / `any(angles_z)` / `last_control=not any(..)`: per level of the
+    top-down multiplexer all four (anyY, anyZ) combinations, and `any` carried by a single entry (first / last
+    angle of the level, the others exactly 0).  An exactly-zero angle_z needs bit-equal arguments of the two
+    children (1e-17 rounding dust counts as non-zero in the real code), so the z-free levels are built from
+    positive reals times powers of i; the pattern actually present in the real angle tree is what is counted."""
+    r = ctx.nprng()
+
+    def rnd(lev, lo, hi):
+        return [float(r.uniform(lo, hi)) for _ in range(2 ** lev)]
+
+    def zeros():
+        return [[0.0] * 2 ** l for l in range(n)]
+
+    for lev in range(n):
+        width, size = 2 ** lev, 2 ** (n - lev)
+        for pat in ("y-only", "z-only", "none", "both"):
+            ys = [rnd(l, 0.6, 2.2) for l in range(n)]
+            zs = [rnd(l, -0.5, 0.5) for l in range(n)]
+            if pat in ("z-only", "none"):
+                ys[lev] = [0.0] * width     # the right children of this level vanish
+            if pat in ("y-only", "none"):
+                zs = zeros()
+            v = from_angles(n, ys, zs)
+            if pat == "y-only":
+                # phases only between the sub-trees of this level: angle_z exactly 0 at this level and below
+                for j in range(width):
+                    v[j * size:(j + 1) * size] *= 1j ** (j % 4)
+            yield _clean(v), f"bnd-any:l={lev}:{pat}", "any-pattern"
+        if width >= 2:
+            for what in ("y", "z"):
+                for pos in (0, width - 1):
+                    ys = [rnd(l, 0.6, 2.2) for l in range(n)]
+                    if what == "y":
+                        keep = ys[lev][pos]
+                        ys[lev] = [0.0] * width
+                        ys[lev][pos] = keep
+                        v = from_angles(n, ys, [rnd(l, -0.5, 0.5) for l in range(n)])
+                    else:
+                        v = from_angles(n, ys, zeros())
+                        v[pos * size + size // 2:(pos + 1) * size] *= cmath.exp(0.7j)
+                    yield _clean(v), f"bnd-any:l={lev}:single-{what}:{'first' if pos == 0 else 'last'}", "any-single"
+
+
+def ucr_leaf_vectors(ctx, n):
+    """ucr.py:48 `abs(angles[0]) > 1e-8` on the multiplexed combinations (a0 +- a1)/2 of one level with two
+    or four angles: the combination is 3e-9 (dropped) / 3e-8 (kept), positive and (for z) negative, the other
+    combination ordinary or exactly 0."""
+    r = ctx.nprng()
+    for lev in range(1, n):
+        width = 2 ** lev
+        for what in ("y", "z"):
+            for tag, d in (("3e-9", 3e-9), ("3e-8", 3e-8)):
+                for mode in ("diff+", "diff-", "sum"):
+                    ys = [[float(r.uniform(0.6, 2.2)) for _ in range(2 ** l)] for l in range(n)]
+                    zs = [[float(r.uniform(-0.5, 0.5)) for _ in range(2 ** l)] for l in range(n)]
+                    tgt = ys if what == "y" else zs
+                    base = tgt[lev][0]
+                    if mode == "sum":
+                        # all angles of the level equal to the small value: the sum combination is d, all
+                        # difference combinations are exactly 0
+                        tgt[lev] = [d] * width
+                    else:
+                        sgn = 1.0 if mode == "diff+" else -1.0
+                        # first half `base`, second half `base - 2*sgn*d`: top-level difference combination
+                        # = sgn*d, inner differences exactly 0
+                        tgt[lev] = [base] * (width // 2) + [base - 2 * sgn * d] * (width // 2)
+                    yield _clean(from_angles(n, ys, zs)), f"bnd-ucr:l={lev}:{what}:{mode}:{tag}", \
+                        f"ucr-leaf:{what}:{mode}:{tag}"
+
+
+def boundary_cases(ctx):
+    """(kind, n, vector, split, family key, counter) — every split 1..n, the default and DCSP for each vector."""
+    gens = [(zero_node_vectors, (1, 2, 3, 4)), (tiny_child_vectors, (1, 2, 3)),
+            (angle_pattern_vectors, (1, 2, 3)), (ucr_leaf_vectors, (2, 3))]
+    for gen, ns in gens:
+        for n in ns:
+            for v, fam, counter in gen(ctx, n):
+                for s in [None] + list(range(1, n + 1)):
+                    yield "bdsp", n, v, s, fam, counter
+                yield "dcsp", n, v, None, fam, counter
+
+
+def gate_split(n, s):
+    return math.ceil(n / 2) if s is None else s
+
+
+def level_pattern(angle_tree, lev):
+    """(any angle_y != 0, any angle_z != 0) over the nodes of one level of the REAL angle tree."""
+    nodes = [angle_tree]
+    for _ in range(lev):
+        nodes = [c for t in nodes for c in (t.left, t.right) if c is not None]
+    ny = sum(1 for t in nodes if t.angle_y != 0.0)
+    nz = sum(1 for t in nodes if t.angle_z != 0.0)
+    f = lambda c: "0" if c == 0 else "1" if c == 1 else "all" if c == len(nodes) else "some"
+    return f"y{f(ny)}-z{f(nz)}"
+
+
+def split_counters(ctx, kind, n, s):
+    """bdsp.py:83-86 start_level = n - split against every `level < start_level` (tree_walk.py:30,46,
+    tree_register.py:33) and `level_nodes[:start_level]`, `nancilla > 0` (tree_register.py:57-68)."""
+    if kind == "dcsp":
+        ctx.count(f"boundary:dcsp-width:n={n}")
+        return
+    if s is None:
+        ctx.count(f"boundary:default-split:n={'odd' if n % 2 else 'even'}")
+        return
+    for name, val in (("1", 1), ("2", 2), ("n-1", n - 1), ("n", n)):
+        if s == val:
+            ctx.count(f"boundary:split:s={name}")
+    ctx.count(f"boundary:start_level={'0' if s == n else '1' if s == n - 1 else 'n-1' if s == 1 else 'mid'}")
+    ctx.count("boundary:nancilla=0" if s == n else "boundary:nancilla>0")
 
 
 UNREACHED_JUSTIFIED = {
@@ -458,9 +658,31 @@ def run(ctx, nmax=None):
     for kind, n, v, s, fam in cases(ctx, nmax, 1 if ctx.quick else 3):
         tie_case(ctx, kind, v, s, fam)
         oracle_case(ctx, kind, v, s, fam)
+        split_counters(ctx, kind, n, s)
     for kind, n, v, s, fam, form, wires in form_cases(ctx):
         tie_case(ctx, kind, v, s, fam, form, wires)
         oracle_case(ctx, kind, v, s, fam, form=form, wires=wires)
+        if form in ("empty-opt", "split-none"):
+            ctx.count(f"boundary:default-split:{form}:n={'odd' if n % 2 else 'even'}")
+    ctx.notes.append("boundary cases: a child's relative magnitude / an angle combination is exactly 0, 1e-12, 3e-9, 3e-8 "
+                     "or 2e-3; the band (5e-9, 2e-8) around ucr's `abs(angle) > 1e-8` is excluded (there the gate "
+                     "list is legitimately discontinuous, the state is not)")
+    for kind, n, v, s, fam, counter in boundary_cases(ctx):
+        tie_case(ctx, kind, v, s, fam)
+        cap = oracle_case(ctx, kind, v, s, fam)
+        if cap is None:
+            continue
+        lev = int(fam.split("l=")[1].split(":")[0])
+        sl = n if kind == "dcsp" else n - (gate_split(n, s))
+        tag = "bottom-up" if lev < sl else "top-down-root" if lev == sl else "top-down-inner"
+        if counter.startswith("any-"):
+            ctx.count(f"boundary:{counter}:{level_pattern(cap['angle_tree'], lev)}")
+            ctx.count(f"boundary:{counter}:level-is-{tag}")
+        elif counter.startswith("ucr-leaf"):
+            ctx.count(f"boundary:{counter}")
+            ctx.count(f"boundary:ucr-leaf:level-is-{tag}")
+        else:
+            ctx.count(f"boundary:{counter}:{tag}")
 
 
 def search(ctx, hints):
